@@ -161,6 +161,18 @@ fn gen_file(w: &World, scale: Scale, max_recs: u64, max_len: u64) -> FileModel {
             line_bytes: (lb + term.len()) as u64,
         });
     }
+    // The rows of a .fai need not be in file order (a sorted or subsetted index still matches the
+    // file); record numbers follow the rows. Permute the model accordingly.
+    if recs.len() > 1 && w.chance(1, 4) {
+        for i in 0..recs.len() {
+            let j = i + w.draw((recs.len() - i) as u64) as usize;
+            recs.swap(i, j);
+        }
+        if recs.windows(2).any(|p| p[0].offset > p[1].offset) {
+            w.fired("fai_rows_not_in_file_order");
+            w.probe("fai_rows_not_in_file_order");
+        }
+    }
     // .fai by the reference indexer
     let fai_crlf = w.chance(1, 4);
     let fai_last_term = !w.chance(1, 3);
@@ -910,7 +922,7 @@ pub fn property() -> Property {
             "start_on_line_boundary", "stop_on_line_boundary", "empty_interval_read", "iterator_dropped_half_way", "operation_after_dropped_iterator",
             "read_after_failed_read", "exact_read_after_failed_operation", "operation_failed_by_injected_fault", "cut_inside_requested_range",
             "cut_after_requested_range", "cut_inside_terminator_after_range", "short_file_reported_as_error", "fetch_rejected_unknown_target",
-            "file_without_final_terminator", "magic_size_run", "large_regime", "many_records_regime", "huge_regime", "allpairs_sweep",
+            "file_without_final_terminator", "fai_rows_not_in_file_order", "magic_size_run", "large_regime", "many_records_regime", "huge_regime", "allpairs_sweep",
         ],
         quick_runs: 300_000,
         thorough_runs: 20_000_000,
